@@ -134,6 +134,17 @@ def classify(results, metas, wd, rep, dist, known_keys=()):
                         if t[1] != o[1] or o[3] != "0" or not landed_ok:
                             bad_prop.append({"kind": "the hypotheses of theorem C07_pcm_seek_checked / C07_pcm_seek_checked_to_link_end / C20_half_rate_seek_checked hold for %s (intact run reaching the target) "
                                                      "but the implementation answers: %s" % (t[1], " ".join(o[:8])), "case": k, "meta": m, "cases_file": cfile})
+            # theorem C19_lapped_seek_lands_on_target (model-only `thml` lines, one per pl: op in order)
+            thl = [l.split() for l in mcases.get(k, []) if l.startswith("thml ")]
+            pls = [l.split() for l in ops if l.split()[1].startswith("pl:")]
+            if len(thl) == len(pls):
+                for t, o in zip(thl, pls):
+                    dist["lapped_sample_seeks"] = dist.get("lapped_sample_seeks", 0) + 1
+                    if t[2] == "1":
+                        dist["lapped_sample_seeks_theorem_applies"] = dist.get("lapped_sample_seeks_theorem_applies", 0) + 1
+                        if t[1] != o[1] or o[3] != "0" or int(o[5]) != int(t[1][3:]):
+                            bad_prop.append({"kind": "the hypotheses of theorem C19_lapped_seek_lands_on_target hold for %s but the implementation answers: %s"
+                                                     % (t[1], " ".join(o[:8])), "case": k, "meta": m, "cases_file": cfile})
             for l in ops:
                 t = l.split()[1][:2]
                 dist["ops_" + t] = dist.get("ops_" + t, 0) + 1
